@@ -182,3 +182,100 @@ def all_int_slots_validated(prog, ev):
     labels = {s[0] for s in sites}
     need = {"Selector::Index.0", "Selector::Slice.0", "Selector::Slice.1", "Selector::Slice.2", "SingularQuerySegment::Index.0"}
     return ok and need <= labels, sites
+
+
+# ------------------------------------------------------------------------------------------------ roles
+_ROLE_CACHE = {}
+
+
+def roles(prog, ev):
+    """Private helpers identified by what they are used for, so that finding keys survive renaming:
+    {function path: role label}."""
+    if id(prog) in _ROLE_CACHE:
+        return _ROLE_CACHE[id(prog)]
+    from vflib import tables
+    Q = "crate::query::Query"
+    out = {}
+
+    def arm_callee(impl_ty, variant, nf):
+        try:
+            p = prog.impl_method(Q, impl_ty, "process")
+        except Exception:
+            return None
+        t = ev.summary(p)
+        if t.k != "match":
+            return None
+        sel = tables.select(t.a[1], ("v", variant, [tables.ANY] * nf))
+        if len(sel) != 1:
+            return None
+        body = t.a[1][sel[0][0]][2]
+        cands = []
+        for x in subterms(body):
+            if x.k == "call" and x.a[0] in prog.bodies and prog.items[x.a[0]]["kind"] == "Fn":
+                cands.append(x.a[0])
+            if x.k == "fnitem" and x.a[0] in prog.bodies:
+                cands.append(x.a[0])
+            if x.k == "closure":
+                b = ev.apply(x, [Tm("param", (20, "d"))])
+                for y in subterms(b):
+                    if y.k == "call" and y.a[0] in prog.bodies and prog.items[y.a[0]]["kind"] == "Fn":
+                        cands.append(y.a[0])
+        return cands[0] if cands else None
+    for impl_ty, variant, nf, role in ((M + "Segment", "Selectors", 1, "role:multi-selector-handler"), (M + "Segment", "Descendant", 1, "role:descendant-expansion"),
+                                       (M + "Selector", "Name", 1, "role:name-handler"), (M + "Selector", "Index", 1, "role:index-handler"),
+                                       (M + "Selector", "Slice", 3, "role:slice-handler"), (M + "Selector", "Wildcard", 0, "role:wildcard-handler")):
+        c = arm_callee(impl_ty, variant, nf)
+        if c:
+            out[c] = role
+    # comparison helpers
+    try:
+        from rules import c04
+        from vflib.report import Report
+        r = c04.find_roles(prog, ev, Report("tmp"))
+        if r:
+            lt_fn, eq_fn, proc = r
+            out[lt_fn] = "role:lt"
+            out[eq_fn] = "role:eq"
+            tab, t = c04.state_pair_table(prog, ev, eq_fn)
+            if tab:
+                for b, how in tab.get(("Value", "Value"), []):
+                    if b.k == "call" and b.a[0] in prog.bodies:
+                        out[b.a[0]] = "role:value-eq"
+    except Exception:
+        pass
+    # function implementations from TestFunction::apply
+    try:
+        ap = prog.inherent_method(M + "TestFunction", "apply")
+        at = ev.summary(ap)
+        if at.k == "match":
+            for vn, nf in tables.variants_of(prog, M + "TestFunction") or []:
+                sel = tables.select(at.a[1], ("v", vn, [tables.ANY] * nf))
+                if len(sel) == 1:
+                    b = at.a[1][sel[0][0]][2]
+                    if b.k == "call" and b.a[0] in prog.bodies:
+                        out.setdefault(b.a[0], "role:fn-" + ("regex" if vn in ("Match", "Search") else vn.lower()))
+    except Exception:
+        pass
+    # the path converter behind reference / reference_mut
+    try:
+        rp = prog.impl_method("crate::query::queryable::Queryable", "serde_json::value::Value", "reference")
+        for n, node in prog.callees(rp):
+            if n in prog.bodies and prog.items[n]["kind"] == "Fn":
+                out[n] = "role:path-converter"
+    except Exception:
+        pass
+    # the two step formatters of Pointer (by signature: (&T, String, &str) / (&T, String, usize))
+    for p, it in prog.items.items():
+        if it["kind"] == "AssocFn" and (it.get("impl_self") or "").startswith("crate::query::state::Pointer<") and not it.get("impl_trait"):
+            ins = it.get("inputs_s", [])
+            if len(ins) == 3 and ins[2] == "&str":
+                out[p] = "role:name-step-formatter"
+            if len(ins) == 3 and ins[2] == "usize":
+                out[p] = "role:index-step-formatter"
+    _ROLE_CACHE[id(prog)] = out
+    return out
+
+
+def rk(prog, ev, path):
+    """role label of a function if it has one, else the path itself"""
+    return roles(prog, ev).get(path, path)
